@@ -18,7 +18,7 @@ fn build_wrapped_loop_choice_block(
         fallback_continuation,
     } = config;
 
-    let outer_path = joined_path(&scope.path, group_index);
+    let outer_path = joined_path(&scope.path, group_index + scope.param_offset);
     let group_path = joined_path(&outer_path, loop_label);
     let mut choice_labels = BTreeMap::new();
     for (offset, node) in choices.iter().enumerate() {
@@ -133,6 +133,11 @@ fn build_wrapped_loop_choice_block(
     })
 }
 
+/// The container that offers a choice, in the shape the reference compiler emits:
+/// the start content (the text before `[`) lives once in the named container `s`,
+/// which is called here for the text of the choice and again from the choice's
+/// own container for the output line (so that a sequence in it is stepped once
+/// per use); the text inside `[ ]` and the conditions follow.
 fn emit_wrapped_loop_choice_header(
     choice: &Choice,
     scope: &EmitScope,
@@ -141,15 +146,27 @@ fn emit_wrapped_loop_choice_header(
     choices_prefix: &str,
     context: &EmitContext,
 ) -> Result<Value, CompilerError> {
-    let mut arr = vec![
-        json!("ev"),
-        json!({"^->": format!("{choices_prefix}.{header_idx}.$r1")}),
-        json!({"temp=": "$r"}),
-        json!("str"),
-        json!({"->": joined_path(&scope.path, "s")}),
-        Value::Array(vec![json!({"#n": "$r1"})]),
-        json!("/str"),
-    ];
+    let mut arr = vec![json!("ev")];
+    if choice.has_start_content {
+        arr.extend([
+            json!({"^->": format!("{choices_prefix}.{header_idx}.$r1")}),
+            json!({"temp=": "$r"}),
+            json!("str"),
+            json!({"->": joined_path(&scope.path, "s")}),
+            Value::Array(vec![json!({"#n": "$r1"})]),
+            json!("/str"),
+        ]);
+    } else {
+        // (tags written before an empty start text)
+        emit_choice_text_segment("", &choice.start_tags, &mut arr, scope, context)?;
+    }
+    emit_choice_text_segment(
+        &choice.choice_only_text,
+        &choice.choice_only_tags,
+        &mut arr,
+        scope,
+        context,
+    )?;
 
     for (index, condition) in choice.conditions.iter().enumerate() {
         emit_condition(condition, &mut arr, scope, context)?;
@@ -164,29 +181,30 @@ fn emit_wrapped_loop_choice_header(
         "flg": choice_flags(choice)
     }));
 
-    let mut s = Vec::new();
-    // Sequences and conditionals inside the text address themselves by path.
-    let s_scope = scope.at_path(joined_path(&scope.path, "s"));
-    emit_choice_text_content(
-        &choice.start_text,
-        &choice.start_tags,
-        &mut s,
-        &s_scope,
-        context,
-    )?;
-    emit_choice_text_content(
-        &choice.choice_only_text,
-        &choice.choice_only_tags,
-        &mut s,
-        &s_scope,
-        context,
-    )?;
-    s.push(json!({"->": "$r", "var": true}));
-    s.push(Value::Null);
-    arr.push(json!({"s": s}));
+    if choice.has_start_content {
+        let mut s = Vec::new();
+        // Sequences and conditionals inside the text address themselves by path.
+        let s_scope = scope.at_path(joined_path(&scope.path, "s"));
+        emit_choice_text_content(
+            &choice.start_text,
+            &choice.start_tags,
+            &mut s,
+            &s_scope,
+            context,
+        )?;
+        s.push(json!({"->": "$r", "var": true}));
+        s.push(Value::Null);
+        arr.push(json!({"s": s}));
+    } else {
+        arr.push(Value::Null);
+    }
 
     Ok(Value::Array(arr))
 }
+
+/// Number of tokens of the call of the start content at the beginning of the
+/// container of a choice that has start content.
+const START_CONTENT_CALL_LEN: usize = 6;
 
 struct WrappedLoopChoiceBodyConfig<'a> {
     choice_index: usize,
@@ -285,6 +303,13 @@ fn emit_wrapped_loop_choice_body(
         branch_nodes.extend(choice.body.clone());
     }
 
+    // The call of the start content is prepended below: content that addresses
+    // itself by index (conditionals, sequences) has to know.
+    let mut branch_scope = branch_scope.clone();
+    if choice.has_start_content {
+        branch_scope.param_offset = START_CONTENT_CALL_LEN;
+    }
+    let branch_scope = &branch_scope;
     let has_nested_choices = branch_nodes.iter().any(|n| matches!(n, Node::Choice(_)));
     let mut branch_container = if has_nested_choices {
         emit_nodes_with_continuation(
@@ -342,6 +367,7 @@ fn emit_wrapped_loop_choice_body(
         json!({"->": format!("{}.{}.s", config.choices_prefix, config.header_idx)}),
         Value::Array(vec![json!({"#n": "$r2"})]),
     ];
+    debug_assert_eq!(out.len(), START_CONTENT_CALL_LEN);
     out.append(&mut arr);
     out.push(last);
     Ok(Value::Array(out))
